@@ -176,3 +176,14 @@ pub fn all_views() -> Vec<(R, u32)> {
 pub fn reg_by_name(s: &str) -> Option<R> {
     all_regs().into_iter().find(|r| format!("{:?}", r) == s)
 }
+
+/// deterministic filler for large areas (same generator in the Lean driver and the native oracle)
+pub fn lcg_bytes(seed: u64, n: usize) -> Vec<u8> {
+    let mut x = seed;
+    let mut v = Vec::with_capacity(n);
+    for _ in 0..n {
+        x = x.wrapping_mul(6364136223846793005).wrapping_add(1442695040888963407);
+        v.push((x >> 56) as u8);
+    }
+    v
+}
